@@ -332,11 +332,11 @@ class ParseContext:
     if inspect.isfunction(fn_or_cls) and inspect.isclass(path_attrs[-1]):  # pytype: disable=not-supported-yet
       self._register(attr_names[:-1], attr_values[:-1])
       if original is None:
-        # Registered subclasses inherit the method: re-register them too, so
-        # that their instances see its bindings as well.
+        # Other registered classes share the method (subclasses inherit it; it
+        # may have been named through a subclass of the class defining it):
+        # re-register them too, so that their instances see its bindings.
         for cls, sub in list(_INVERSE_REGISTRY.items()):
           if (inspect.isclass(cls) and cls is not path_attrs[-1] and
-              issubclass(cls, path_attrs[-1]) and
               getattr(cls, fn_or_cls.__name__, None) is fn_or_cls):
             _make_configurable(
                 cls,
